@@ -35,7 +35,7 @@ CHECKS.update({
              tech="Lean 4 proof + same-precision correspondence on boundary atoms", ref="DESIGN.md §5 C17"),
  'C18': dict(cat='proof', text="Lean theorems for any class meeting a hook contract, any event shape, any R: log_prob shape and ValueError iff row mismatch, sample shapes with/without context, TypeError iff not a positive int (bool counts as int), batched sampling gives n draws per context row for every n, b (dividing or not), sample_and_log_prob shapes match, per-class contract instances; tied exactly on an exhaustive grid (18k cells) of classes x n x batch_size x context x event shapes. Known finding F15 (MADEMoG.sample without context).",
              tech="Lean 4 proof + exhaustive exact correspondence", ref="DESIGN.md §5 C18"),
- 'C19': dict(cat='other', text="PARTIAL. Proved: the dtype clause on a promotion-lattice model (results of ops over dimensioned float-d leaves plus weak leaves have dtype d); and, for the numeric clause, forward-error theorems in the standard model of floating-point arithmetic (the EXECUTED program with every primitive followed by a rounding of relative error <= u; that IEEE binary32/64 kernels satisfy it away from overflow/underflow is trusted): inner product, F.linear, point-wise affine element (both directions, log-det), chains of affine elements and general Lipschitz composition, LeakyReLU, Exp, LU/SVD log-det sums -- two precisions differ by at most the two rounding budgets times the conditioning scale sum|x_i||w_i|. NOT a theorem: splines and other programs branching on rounded constants, overflow/NaN/finiteness; these are decided by executing the same Lean definitions in Float32 and Float against the float32 implementation and its float64 twin, plus result-dtype checks.",
+ 'C19': dict(cat='other', text="PARTIAL. Proved: the dtype clause on a promotion-lattice model (results of ops over dimensioned float-d leaves plus weak leaves have dtype d); and, for the numeric clause, forward-error theorems in the standard model of floating-point arithmetic (the EXECUTED program with every primitive followed by a rounding of relative error <= u; that IEEE binary32/64 kernels satisfy it away from overflow/underflow is trusted): inner product, F.linear, point-wise affine element (both directions, log-det), chains of affine elements and general Lipschitz composition, LeakyReLU, Exp, LU/SVD log-det sums, the LULinear forward pass with given factors, and whole FLOWS of linear / LU / affine / LeakyReLU layers chained by the model's own composite loop (sup-norm error recursion, log-det running sum) -- two precisions differ by at most the two rounding budgets times the conditioning scale sum|x_i||w_i|. NOT a theorem: splines and other programs branching on rounded constants, overflow/NaN/finiteness; these are decided by executing the same Lean definitions in Float32 and Float against the float32 implementation and its float64 twin, plus result-dtype checks.",
              tech="Lean 4 proof (dtype clause) + Float32/Float model correspondence (numeric clause)", ref="DESIGN.md §5 C19, §8.1"),
 })
 CHECKS.update({
@@ -70,7 +70,7 @@ EXTRA = {
  'C07': " Executed coupling layer (couplingApply, any XOps incl. Float): identity positions untouched, conditioner input = identity split (incl. unconditional-transform ordering), one row refines the abstract coupling.",
  'C09': " Whole programs: the executed RQ / quadratic / cubic / linear forward programs (and inverses) are strictly increasing bijections of the box pinning the corners for every K and parameter vector; with linear tails: identity outside, continuous, strictly increasing bijection of the real line (RQ also C1 at the junctions).",
  'C12': " Executed coupling / autoregressive / CDF passes: row b of out and ld depends only on row b of x and params (batch sizes may differ), for any XOps.",
- 'C16': " Also: soundness of the dual-number rule of every XOps primitive, of every element-wise transformer (input and own-parameter directions) and of the whole executed RQ program on dual numbers (returns (value, exp(log-det))); the executed RQ inverse, quadratic (both shapes) and linear programs on dual numbers; the executed RQ forward program in EVERY parameter direction (tangents through softmax, floor, cumsum, pinning, search, closed form = derivative of the real program along the line).",
+ 'C16': " Also: soundness of the dual-number rule of every XOps primitive, of every element-wise transformer (input and own-parameter directions) and of the whole executed RQ program on dual numbers (returns (value, exp(log-det))); the executed RQ inverse, quadratic (both shapes) and linear programs on dual numbers; the executed RQ forward AND inverse, quadratic and linear forward programs in EVERY parameter direction (tangents through softmax, floor, cumsum, pinning, search, closed form = derivative of the real program along the line); the chain rule through the EXECUTED coupling layer with bounded RQ elements in both directions (inputs and conditioner output moving along arbitrary differentiable curves: every output entry and row log-det of the dual run is the total derivative).",
  'C17': " Whole programs: every executed spline program (RQ, quadratic both shapes, cubic, linear; forward and inverse; RQ with tails on all reals; RQ-tails coupling layers) returns a value on its whole domain (all gathers in range, assertions dead, logarithm arguments positive); counterexample theorem for the one-bin quadratic tails configuration (known finding F27).",
 }
 
